@@ -22,6 +22,8 @@ func Run(c *vk.Ctx) {
 		c.LoadReplay(&probe)
 		if probe.Sub == "static" {
 			replayStatic(c)
+		} else if probe.Sub == "capacity" {
+			replayCapacity(c)
 		} else {
 			replayDynamic(c)
 		}
@@ -33,6 +35,8 @@ func Run(c *vk.Ctx) {
 		static(c)
 	case "dynamic":
 		dynamic(c)
+	case "capacity":
+		capacity(c)
 	default:
 		vk.Fatalf("unknown sub %q", c.Sub)
 	}
